@@ -31,9 +31,9 @@ MagCmpFrom(a, b, i) ==          \* a, b normalised and of equal length
   ELSE IF a[i] < b[i] THEN -1
   ELSE IF a[i] > b[i] THEN 1
   ELSE MagCmpFrom(a, b, i + 1)
-MagCmp(x, y) ==                 \* -1, 0, 1
-  LET a == Norm(x)  b == Norm(y)
-  IN IF Len(a) < Len(b) THEN -1 ELSE IF Len(a) > Len(b) THEN 1 ELSE MagCmpFrom(a, b, 1)
+MagCmpN(a, b) ==                \* -1, 0, 1 for normalised magnitudes
+  IF Len(a) < Len(b) THEN -1 ELSE IF Len(a) > Len(b) THEN 1 ELSE MagCmpFrom(a, b, 1)
+MagCmp(x, y) == MagCmpN(Norm(x), Norm(y))
 
 \* digit of magnitude a at distance i from the right (0 = units), 0 beyond the left end
 DigitR(a, i) == IF i < Len(a) THEN a[Len(a) - i] ELSE 0
@@ -82,8 +82,8 @@ Cmp(x0, y0) ==
   LET x == Canon(x0)  y == Canon(y0)
   IN IF x.neg /\ ~y.neg THEN -1
      ELSE IF ~x.neg /\ y.neg THEN 1
-     ELSE IF x.neg THEN MagCmp(y.d, x.d)
-     ELSE MagCmp(x.d, y.d)
+     ELSE IF x.neg THEN MagCmpN(y.d, x.d)
+     ELSE MagCmpN(x.d, y.d)
 Eq(x, y)  == Cmp(x, y) = 0
 Lt(x, y)  == Cmp(x, y) < 0
 Leq(x, y) == Cmp(x, y) <= 0
